@@ -338,8 +338,15 @@ def run_life(prop, tier, seed, keep=False):
             w.run_drive(["gen", "-profile", "wild", "-n", str(n), "-seed", str(seed + 3), "-sid0", str(n + 1), "-out", "scenarios2.json"])
             # ... and with converter generators (a generated converter is planned with like a supplied one: it must not run either)
             w.run_drive(["gen", "-profile", "redefgen", "-n", str(n), "-seed", str(seed + 5), "-sid0", str(2 * n + 1), "-out", "scenarios3.json"])
+            # ... and same-named values with and without subtypes, mostly without an input filter (the name discounts make a
+            # plan through a converter look cheaper than asking for the value: the converter is planned with, never run)
+            w.run_drive(["gen", "-profile", "redefsub", "-n", str(n), "-seed", str(seed + 7), "-sid0", str(3 * n + 1), "-out", "scenarios4.json"])
+            sub = json.load(open(w.path("scenarios4.json")))
+            for i, x in enumerate(sub):
+                if i % 4:
+                    x["hasFilter"], x["filterIn"] = False, []
             allscn = json.load(open(w.path("scenarios.json"))) + [x for x in json.load(open(w.path("scenarios2.json"))) if x["mode"] == "redefine"] \
-                + json.load(open(w.path("scenarios3.json")))
+                + json.load(open(w.path("scenarios3.json"))) + sub
             vlib.write_json(w.path("scenarios.json"), allscn)
             r = w.run_drive(["run", "-in", "scenarios.json", "-reps", "3", "-seed", str(seed), "-out", "trace.ndjson"])
             log(r.stderr.strip())
